@@ -12,6 +12,7 @@ import (
 	"path/filepath"
 	"reflect"
 	"runtime"
+	"runtime/debug"
 	"sort"
 	"strconv"
 	"strings"
@@ -148,6 +149,16 @@ func runHist(p *Plan, keepLog bool) *RunResult {
 	}
 	for i := range p.Cfgs {
 		h.cfgs = append(h.cfgs, &cfgState{spec: &p.Cfgs[i]})
+	}
+	if v, ok := p.Knobs["gcpercent"]; ok {
+		// the collector's pace for this run (int when generated here, float64 when read from a replay file)
+		switch x := v.(type) {
+		case int:
+			debug.SetGCPercent(x)
+		case float64:
+			debug.SetGCPercent(int(x))
+		}
+		h.ctr.inc("gc_pace_set")
 	}
 	g := lint.GlobalRegistry()
 	g.SetConfiguration(h.emptyCfg)
@@ -354,6 +365,11 @@ func (h *histState) step(i int, op *Op) {
 			}
 			h.log.Add("op %d mkopts %s", i, op.Opts)
 		}
+	case "gc":
+		runtime.GC()
+		runtime.GC()
+		h.ctr.inc("fault/forced_gc")
+		h.log.Add("op %d gc", i)
 	case "clock":
 		h.setClock(op.T)
 		h.ctr.inc("fault/clock_jump")
